@@ -25,6 +25,8 @@ fn sem(t: &Tree, env: &[TV; 3]) -> TV {
 fn atom(i: usize) -> SimpleExpr { Expr::col(Alias::new(["a", "b", "c"][i])).into() }
 // `.not()` may be called before or after the members are added (same group either way): both call orders are explored
 static NOT_FIRST: std::sync::atomic::AtomicBool = std::sync::atomic::AtomicBool::new(false);
+// .not() is an involution: a group may be flipped any number of times; NOT_EXTRA adds two more flips to every group
+static NOT_EXTRA: std::sync::atomic::AtomicBool = std::sync::atomic::AtomicBool::new(false);
 fn build(t: &Tree) -> ConditionExpression {
     let not_first = NOT_FIRST.load(std::sync::atomic::Ordering::Relaxed);
     match t {
@@ -34,6 +36,7 @@ fn build(t: &Tree) -> ConditionExpression {
             if *neg && not_first { c = c.not(); }
             for k in kids { c = c.add(build(k)); }
             if *neg && !not_first { c = c.not(); }
+            if NOT_EXTRA.load(std::sync::atomic::Ordering::Relaxed) { c = c.not().not(); }
             c.into()
         }
     }
@@ -146,14 +149,17 @@ fn chains() -> Vec<Tree> {
 
 pub fn search(obl: &str) -> Vec<Witness> {
     let mut found = vec![];
-    for nf in [false, true] {
+    for (nf, extra) in [(false, false), (true, false), (false, true)] {
         NOT_FIRST.store(nf, std::sync::atomic::Ordering::Relaxed);
+        NOT_EXTRA.store(extra, std::sync::atomic::Ordering::Relaxed);
         let mut ws = search_mode(obl);
         if nf { for w in ws.iter_mut() { w.input = format!("not-first: {}", w.input); } }
+        if extra { for w in ws.iter_mut() { w.input = format!("not-twice-more: {}", w.input); } }
         found.extend(ws);
         if !found.is_empty() { break; }
     }
     NOT_FIRST.store(false, std::sync::atomic::Ordering::Relaxed);
+    NOT_EXTRA.store(false, std::sync::atomic::Ordering::Relaxed);
     found
 }
 fn search_mode(_obl: &str) -> Vec<Witness> {
@@ -178,6 +184,12 @@ fn search_mode(_obl: &str) -> Vec<Witness> {
     found
 }
 pub fn check_one(label: &str) -> Option<Witness> {
+    if let Some(rest) = label.strip_prefix("not-twice-more: ") {
+        NOT_EXTRA.store(true, std::sync::atomic::Ordering::Relaxed);
+        let r = check_one(rest).map(|mut w| { w.input = label.to_string(); w });
+        NOT_EXTRA.store(false, std::sync::atomic::Ordering::Relaxed);
+        return r;
+    }
     if let Some(rest) = label.strip_prefix("not-first: ") {
         NOT_FIRST.store(true, std::sync::atomic::Ordering::Relaxed);
         let r = check_one(rest).map(|mut w| { w.input = label.to_string(); w });
